@@ -50,6 +50,9 @@ struct HSel : Harness {
     if (alg == A_KMPP) k = (int)wr.range(1, std::min(6, n));
     p.seti("alg", alg); p.seti("objects", n); p.seti("cols", pp); p.seti("k", k); p.seti("metric", (int)wr.below(3)); p.seti("init", (int)wr.below(4));
     p.seti("nthreads", (int)wr.range(1, 8)); p.setu("rng_seed", 1 + wr.below(1000000)); p.setu("data.seed", wr.next() >> 4);
+    // data layout (swarm): 0 one Gaussian cloud, 1 separated blobs, 2 some objects duplicated, 3 cloud far from the origin; unit of the data 1e-3..1e3
+    p.seti("layout", wr.chance(0.5) ? 0 : (int)wr.range(1, 3));
+    p.setd("unit_exp", wr.chance(0.6) ? 0.0 : wr.uniform(-3.0, 3.0));
     return p;
   }
 
@@ -60,6 +63,16 @@ struct HSel : Harness {
     Prng dr(p.getu("data.seed"), PURPOSE_WORKLOAD);
     c.X.assign(c.n, std::vector<double>(c.p));
     for (auto &r : c.X) for (double &v : r) v = dr.normal() * 3 + dr.uniform(-2, 2);
+    {
+      int layout = (int)p.geti("layout", 0); double unit = pow(10.0, p.getd("unit_exp", 0.0));
+      Prng lr(p.getu("data.seed") ^ 0x5bd1e995u, PURPOSE_WORKLOAD);
+      if (layout == 1) { int nb = 1 + (int)lr.below(5); std::vector<std::vector<double>> ctr(nb, std::vector<double>(c.p)); for (auto &q : ctr) for (double &v : q) v = lr.uniform(-40, 40); for (auto &r : c.X) { auto &q = ctr[lr.below(nb)]; for (int j = 0; j < c.p; j++) r[j] = r[j] * 0.3 + q[j]; } }
+      else if (layout == 2) { int nd = 1 + (int)lr.below(std::max(1, c.n / 2)); for (int d = 0; d < nd; d++) { size_t a = lr.below(c.n), b = lr.below(c.n); c.X[a] = c.X[b]; } }
+      else if (layout == 3) { for (int j = 0; j < c.p; j++) { double off = lr.uniform(-200, 200); for (auto &r : c.X) r[j] += off; } }
+      if (unit != 1.0) for (auto &r : c.X) for (double &v : r) v *= unit;
+      o.counters["layout." + std::to_string(layout)]++;
+      if (unit < 0.1) o.counters["probe.small_unit"]++; else if (unit > 10) o.counters["probe.large_unit"]++;
+    }
     char cfg[200]; snprintf(cfg, sizeof cfg, "%s n=%d p=%d k=%d metric=%d init=%d threads=%d", alg_name[c.alg], c.n, c.p, c.k, c.metric, c.init, c.nthreads);
     o.cfg = cfg; o.counters[std::string("alg.") + alg_name[c.alg]]++;
     sim_cfg sc; std::vector<sim_switch> rs; cfg_from_plan(p, sc, rs);
